@@ -59,7 +59,9 @@ Layouts(streams) ==
        \cup {<<[t |-> "ignored", len |-> 8], D(AllTo(streams, c)), [t |-> "ignored", len |-> 4], D(full), [t |-> "index", n |-> 1]>> : c \in {0, 5}}
        \cup {<<D(AllTo(streams, 0)), D(AllTo(streams, c)), D(AllTo(streams, c)), D(full)>> : c \in {3, m \div 2}}
 
-Starts == <<48, 988, 992, 1000, 1012, 1016, 1020, 2008, 996, 1004, 1008, 2032>>
+\* section starts: 48 and every 4-aligned logical offset that puts the section header, the first packet header or its
+\* stream table on, before or after the end of a page payload (1020)
+Starts == <<48, 948, 952, 956, 960, 964, 968, 972, 976, 980, 984, 988, 992, 996, 1000, 1004, 1008, 1012, 1016, 1020, 1024, 2004, 2008, 2032>>
 
 \* ---- model-level theorem: the decoder reads back the scene
 RoundTrips(proto, pts, layout, lstart) ==
@@ -79,11 +81,15 @@ Case(name, proto, pts, layout, lstart) ==
 
 SceneCases(name, proto, pts) ==
     LET ls == SetToSeq(Layouts(AllStreams(proto, pts, 1)))
-    IN \A j \in 1..Len(ls) : Case(name \o "-" \o ToString(j), proto, pts, ls[j], Starts[(j % Len(Starts)) + 1])
+    IN \A j \in 1..Len(ls) : Case(name \o "-" \o ToString(j), proto, pts, ls[j], Starts[((j + Len(name) + Len(proto)) % Len(Starts)) + 1])
 
 ASSUME SceneCases("s1", Proto1, AsSeq(Pts1))
 ASSUME SceneCases("s2", Proto2, AsSeq(Pts2))
 ASSUME \A w \in Widths : SceneCases("w" \o ToString(w), WProto(w), AsSeq(WPts(w)))
+\* the single-packet layout of the first scene at every start
+ASSUME \A j \in 1..Len(Starts) : Case("s1-at-" \o ToString(Starts[j]), Proto1, AsSeq(Pts1), <<D(Lens(AllStreams(Proto1, AsSeq(Pts1), 1)))>>, Starts[j])
+ASSUME \A j \in 1..Len(Starts) : Case("s1-two-at-" \o ToString(Starts[j]), Proto1, AsSeq(Pts1),
+                                         <<D(AllTo(AllStreams(Proto1, AsSeq(Pts1), 1), (j * 3) % 30)), D(Lens(AllStreams(Proto1, AsSeq(Pts1), 1)))>>, Starts[j])
 \* an empty point cloud
 ASSUME Case("empty", Proto1, <<>>, <<>>, 1016)
 
